@@ -33,6 +33,11 @@ class SimAbort(BaseException):
     """Asynchronous termination injected by the simulator (KeyboardInterrupt-like)."""
 
 
+class SimMemoryError(MemoryError):
+    """Injected allocation failure: unlike SimAbort it is an ordinary Exception, so
+    `except Exception` handlers of the code under test see it."""
+
+
 class HarnessError(BaseException):
     """A failure of the simulator itself; never a verdict about the library."""
 
@@ -593,6 +598,7 @@ class Client:
         self.abort_site = None
         self.abort_n = 0
         self.abort_delivered = False
+        self.abort_kind = "abort"
         self.io_fault = None
         self.io_fired = False
         self.fs_overlay = {}  # path -> text id, files this client has (re)written
@@ -729,14 +735,14 @@ def make_tracers(sim, sched, modes):
                     cl.abort_site = None
                     cl.abort_delivered = True
                     _abort_probes(sim, frame)
-                    sim.fire_fault("abort", f"site {os.path.basename(co.co_filename)}:{co.co_name}:{frame.f_lineno}")
-                    raise SimAbort()
+                    sim.fire_fault(cl.abort_kind, f"site {os.path.basename(co.co_filename)}:{co.co_name}:{frame.f_lineno}")
+                    raise (SimMemoryError("injected allocation failure") if cl.abort_kind == "alloc_failure" else SimAbort())
         elif cl.abort_at and cl.opstep == cl.abort_at:
             cl.abort_delivered = True
             co = frame.f_code
             _abort_probes(sim, frame)
-            sim.fire_fault("abort", f"step {os.path.basename(co.co_filename)}:{co.co_name}:{frame.f_lineno}")
-            raise SimAbort()
+            sim.fire_fault(cl.abort_kind, f"step {os.path.basename(co.co_filename)}:{co.co_name}:{frame.f_lineno}")
+            raise (SimMemoryError("injected allocation failure") if cl.abort_kind == "alloc_failure" else SimAbort())
         if cl.opstep > sched.max_op_steps or sim.gstep > sched.max_steps:
             raise HarnessError(f"step cap exceeded (op {cl.opstep}, run {sim.gstep})")
         sched.remaining -= 1
@@ -849,6 +855,7 @@ def exec_op(sim, cl, i, traced):
     cl.abort_site = None
     cl.io_fault = op.get("io_fault")
     ab = op.get("abort")
+    cl.abort_kind = "alloc_failure" if (ab and ab.get("exc") == "MemoryError") else "abort"
     if ab and traced:
         if "site" in ab:
             cl.abort_site = (ab["site"][0], ab["site"][1])
